@@ -7,7 +7,10 @@ pub const fn next_aligned(n: usize, alignment: usize) -> usize {
   if remaining == 0 {
     n
   } else {
-    n + (alignment - remaining)
+    match n.checked_add(alignment - remaining) {
+      Some(aligned) => aligned,
+      None => panic!("capacity overflow"),
+    }
   }
 }
 
@@ -22,7 +25,10 @@ pub const fn next_capacity<T>(capacity: usize) -> usize {
     };
   }
 
-  2 * capacity
+  match capacity.checked_mul(2) {
+    Some(doubled) => doubled,
+    None => panic!("capacity overflow"),
+  }
 }
 
 pub fn max_align<T>() -> usize {
@@ -36,8 +42,15 @@ pub fn make_layout<T>(capacity: usize, alignment: usize) -> alloc::alloc::Layout
   let num_bytes = if capacity == 0 {
     next_aligned(header_size, alignment)
   } else {
-    next_aligned(header_size, alignment)
-      + next_aligned(capacity * core::mem::size_of::<T>(), alignment)
+    let num_elem_bytes = match capacity.checked_mul(core::mem::size_of::<T>()) {
+      Some(num_elem_bytes) => num_elem_bytes,
+      None => panic!("capacity overflow"),
+    };
+
+    match next_aligned(header_size, alignment).checked_add(next_aligned(num_elem_bytes, alignment)) {
+      Some(num_bytes) => num_bytes,
+      None => panic!("capacity overflow"),
+    }
   };
 
   alloc::alloc::Layout::from_size_align(num_bytes, alignment).unwrap()
